@@ -194,6 +194,32 @@ CHECKS += [
           "the two explorers; a layout may be rejected (must raise) only when an FFT axis is chunked.",
   "technique": "stateless model checking of the implementation: deviation-bounded exhaustive exploration of Dask task orders and preemption-bounded thread interleavings under controlled schedulers, plus exhaustive chunk-layout enumeration with a differential oracle"},
 ]
+
+# alphabets added after the fourth wave of independently produced breaking changes (see DESIGN.md A.5)
+_WAVE4 = {
+ "C01": "contains() probes are also given on the TAI and TT scales.",
+ "C02": "Assignment histories include assignments that must be refused (labels must stay).",
+ "C03": "Every truthy spelling of crop; large Quantity shifts a few thousandths off a whole sample; use / overwrite buffer / use again.",
+ "C04": "Use, assign sample_rate, shift again vs a freshly built signal; use / overwrite buffer / use again.",
+ "C05": "Chirps handed to the caller and modified; use / assign sample_rate / dedisperse vs a fresh signal; overwritten buffers.",
+ "C06": "DM objects updated in place between uses; use / assign sample_rate / dedisperse vs a fresh signal; overwritten buffers.",
+ "C07": "Complex array, read-only and strided factors, the same array used twice, operands snapshotted around every product.",
+ "C08": "phasepol reference times 100-400 ns apart; time_at with guesses in the same, neighbouring and second-neighbour entries.",
+ "C09": "The one-chunk layouts are re-run under a tiny ambient dask array.chunk-size.",
+ "C10": "Axis spelled 0/'time'/-ndim/np.int64(0) (and the channel analogues); pieces stamped on the TAI / TT scale.",
+ "C11": "offset_at with times on other scales; every time-chunk size of a Dask read on two spans.",
+ "C12": "t and n as NumPy integers of every width on a 300-sample signal; Time requests on other scales; buffer overwritten between requests.",
+ "C13": "Refused pol_type assignments; use / overwrite buffer / use again for all four conversions.",
+ "C14": "Pieces carrying different meta dicts (joined and refused); shifts that move everything out of band / out of the block.",
+ "C15": "Keyword spellings of to_string's defaults (unit strings, equal-but-distinct unit objects, alwayssign); reductions on transposed views.",
+ "C16": "NaN, -inf, float32-, integer-valued and string rates in the menus.",
+ "C17": "dtype= calls whose values depend on the computation type; signal operands with fewer / more dimensions.",
+ "C19": "Complex inputs of every shape including empty ones, every axis spelling.",
+ "C20": "stft/istft with the optional arguments omitted or spelled in every way on N = 256, 600, 1024; use / overwrite buffer / use again.",
+}
+for _c in CHECKS:
+    if _c["property_id"] in _WAVE4:
+        _c["text"] = _c["text"] + " " + _WAVE4[_c["property_id"]]
 _ALL = ["C%02d" % i for i in range(1, 21)]
 NOT_APPLICABLE = [{"property_id": p, "reason": "check not yet built in this session (planned in DESIGN.md; no claim made yet)"}
                   for p in _ALL if p not in {c["property_id"] for c in CHECKS}]
